@@ -203,3 +203,23 @@ Proof.
     all: intros cf E; vm_compute in E; injection E as <-; vm_compute; reflexivity. }
   split; vm_compute; reflexivity.
 Qed.
+
+(* ------------------------------------------------------------------ the hypothesis on the content key excludes real inputs *)
+(* an algebraic enum with the content key `type` (a Go keyword): in dom_C10, in no class of known_C10 and NOT in the computable
+   keyword class of Spec/C10GoGrammar.v (which looks at type, variant and parameter names only), yet its struct has the field
+   `type interface{}` and the recogniser rejects the file *)
+Definition gg_kc_prog : parsed :=
+  {| p_structs := [];
+     p_enums := [EAlgebraic (lit "kind") (lit "type")
+                   {| eid := Proofs.C10_TSGrammarFile.g_id "E"; egenerics := []; ecomments := [];
+                      evariants := [VTuple (RPrim PString) {| vid := Proofs.C10_TSGrammarFile.g_id "A"; vcomments := [] |}];
+                      edecs := []; erecursive := false; eredacted := false |}];
+     p_aliases := []; p_consts := []; p_type_names := []; p_errors := []; p_imports := [] |}.
+
+Lemma go_keyword_content_key_refuted :
+  exists cfg pd text, dom_C10 CGO pd = true /\ known_C10 CGO [] pd = [] /\ known_C10_go_grammar pd = [] /\
+    go_generate uc_exec cfg pd = Ok text /\ contains_sub (lit "type interface{}") text = true /\ c10_go_recognise text = None.
+Proof.
+  exists gg_cfg, gg_kc_prog, (match go_generate uc_exec gg_cfg gg_kc_prog with Ok t => t | _ => [] end).
+  repeat split; vm_compute; reflexivity.
+Qed.
